@@ -38,7 +38,7 @@ GRID = [0, 0, 0, 0.5, 0.5, 1, 1, 2]
 
 
 def n_cases(tier):
-    return 400 if tier == 'quick' else 450
+    return 400 if tier == 'quick' else 1500
 
 
 def make_case(seed, index, tier):
